@@ -17,6 +17,9 @@ pub struct FromMetaOptions {
     from_word: Option<Callable>,
     /// Override for the default [`FromMeta::from_none`] method.
     from_none: Option<Callable>,
+    /// The number of fields the input declares if it is a tuple struct. This is tracked
+    /// separately from `base.data`, which only holds the fields whose options parsed.
+    tuple_len: Option<usize>,
 }
 
 impl FromMetaOptions {
@@ -25,6 +28,13 @@ impl FromMetaOptions {
             base: Core::start(di)?,
             from_word: None,
             from_none: None,
+            tuple_len: match di.data {
+                syn::Data::Struct(syn::DataStruct {
+                    fields: syn::Fields::Unnamed(ref fields),
+                    ..
+                }) => Some(fields.unnamed.len()),
+                _ => None,
+            },
         })
         .parse_attributes(&di.attrs)?
         .parse_body(&di.data)
@@ -97,7 +107,7 @@ impl ParseData for FromMetaOptions {
 
         match self.base.data {
             Data::Struct(ref data) => {
-                if data.is_tuple() && data.len() != 1 {
+                if self.tuple_len.map_or(false, |len| len != 1) {
                     errors.push(
                         Error::custom("`FromMeta` can only be derived for tuple structs with exactly one field")
                             .with_span(&self.base.ident),
@@ -107,7 +117,7 @@ impl ParseData for FromMetaOptions {
                 if let Some(from_word) = &self.from_word {
                     if data.is_unit() {
                         errors.push(Error::custom("`from_word` cannot be used on unit structs because it conflicts with the generated impl").with_span(from_word));
-                    } else if data.is_newtype() {
+                    } else if self.tuple_len == Some(1) {
                         errors.push(Error::custom("`from_word` cannot be used on newtype structs because the implementation is entirely delegated to the inner type").with_span(from_word));
                     }
                 }
